@@ -25,6 +25,145 @@ thread_local! {
     static EVENT_PREDS: Vec<(&'static str, EventPred)> = pred_table::event_preds();
 }
 
+/// Reference meaning of a predicate token, written from the statement of C18 (independent of
+/// the crate's predicate code): evaluated on plain data extracted from the captured item.
+struct ItemView {
+    level: u8, // 0 error .. 4 trace
+    target: String,
+    name: String,
+    values: Vec<(String, crate::proto::Val)>,
+    message: Option<String>,
+    /// parent, grandparent, … (views of spans)
+    ancestors: Vec<ItemView>,
+}
+
+fn level_num(l: &tracing_core::Level) -> u8 {
+    match *l {
+        tracing_core::Level::ERROR => 0,
+        tracing_core::Level::WARN => 1,
+        tracing_core::Level::INFO => 2,
+        tracing_core::Level::DEBUG => 3,
+        tracing_core::Level::TRACE => 4,
+    }
+}
+
+fn view_span(s: &CapturedSpan<'_>) -> ItemView {
+    ItemView {
+        level: level_num(s.metadata().level()),
+        target: s.metadata().target().to_owned(),
+        name: s.metadata().name().to_owned(),
+        values: s.values().map(|(k, v)| (k.to_owned(), crate::proto::Val::from_real(v))).collect(),
+        message: None,
+        ancestors: s.ancestors().map(|a| { let mut v = view_span(&a); v.ancestors.clear(); v }).collect(),
+    }
+}
+
+fn view_event(e: &CapturedEvent<'_>) -> ItemView {
+    use crate::proto::Val;
+    let values: Vec<(String, Val)> = e.values().map(|(k, v)| (k.to_owned(), Val::from_real(v))).collect();
+    let message = values.iter().find(|kv| kv.0 == "message").and_then(|kv| match &kv.1 {
+        Val::Obj(s) | Val::Str(s) => Some(s.clone()),
+        Val::Err(chain) => chain.first().cloned(),
+        _ => None,
+    });
+    ItemView {
+        level: level_num(e.metadata().level()),
+        target: e.metadata().target().to_owned(),
+        name: e.metadata().name().to_owned(),
+        values,
+        message,
+        ancestors: e.ancestors().map(|a| { let mut v = view_span(&a); v.ancestors.clear(); v }).collect(),
+    }
+}
+
+fn split_top(s: &str) -> Option<(&str, &str)> {
+    let mut depth = 0i32;
+    for (i, c) in s.char_indices() {
+        match c {
+            '(' => depth += 1,
+            ')' => depth -= 1,
+            ',' if depth == 0 => return Some((&s[..i], &s[i + 1..])),
+            _ => {}
+        }
+    }
+    None
+}
+
+fn str_pred(kind: &str, arg: &str, x: &str) -> Option<bool> {
+    let a = crate::proto::unxs(arg)?;
+    Some(match kind {
+        "eq" => x == a,
+        "sw" => x.starts_with(&a),
+        _ => return None,
+    })
+}
+
+/// `None` = token not understood (then no verdict).
+fn meaning(tok: &str, it: &ItemView, chain: &[ItemView]) -> Option<bool> {
+    use crate::proto::Val;
+    if let Some(inner) = tok.strip_prefix("and(").and_then(|r| r.strip_suffix(')')) {
+        let (a, b) = split_top(inner)?;
+        return Some(meaning(a, it, chain)? & meaning(b, it, chain)?);
+    }
+    if let Some(inner) = tok.strip_prefix("or(").and_then(|r| r.strip_suffix(')')) {
+        let (a, b) = split_top(inner)?;
+        return Some(meaning(a, it, chain)? | meaning(b, it, chain)?);
+    }
+    if let Some(inner) = tok.strip_prefix("par(").and_then(|r| r.strip_suffix(')')) {
+        return match chain.first() {
+            Some(p) => meaning(inner, p, &chain[1..]),
+            None => Some(false),
+        };
+    }
+    if let Some(inner) = tok.strip_prefix("anc(").and_then(|r| r.strip_suffix(')')) {
+        let mut any = false;
+        for i in 0..chain.len() {
+            any |= meaning(inner, &chain[i], &chain[i + 1..])?;
+        }
+        return Some(any);
+    }
+    let parts: Vec<&str> = tok.split(':').collect();
+    let lv = |s: &str| crate::proto::LEVELS.iter().position(|l| *l == s).map(|p| p as u8);
+    Some(match parts.as_slice() {
+        ["lvl", l] => it.level == lv(l)?,
+        ["lvf", "off"] => false,
+        ["lvf", l] => it.level <= lv(l)?,
+        ["tgt", p] => {
+            let p = crate::proto::unxs(p)?;
+            it.target == p || it.target.strip_prefix(&p).map_or(false, |r| r.starts_with("::"))
+        }
+        ["tgp", k, a] => str_pred(k, a, &it.target)?,
+        ["name", k, a] => str_pred(k, a, &it.name)?,
+        ["msg", k, a] => match &it.message {
+            Some(m) => str_pred(k, a, m)?,
+            None => false,
+        },
+        ["fld", n, rest @ ..] => {
+            let n = crate::proto::unxs(n)?;
+            let Some(v) = it.values.iter().find(|kv| kv.0 == n).map(|kv| &kv.1) else { return Some(false) };
+            match (rest, v) {
+                (["i64", x], Val::Int(i)) | (["i128", x], Val::Int(i)) => *i == x.parse::<i128>().ok()?,
+                (["u64", x], Val::UInt(u)) | (["u128", x], Val::UInt(u)) => *u == x.parse::<u128>().ok()?,
+                (["bool", x], Val::Bool(b)) => *b == (*x == "1"),
+                (["f64", x], Val::Float(b)) => f64::from_bits(*b) == f64::from_bits(u64::from_str_radix(x, 16).ok()?),
+                (["str", x], Val::Str(s)) => *s == crate::proto::unxs(x)?,
+                (["vi64", c, x], Val::Int(i)) => match i64::try_from(*i) {
+                    Ok(i) => { let x: i64 = x.parse().ok()?; match *c { "eq" => i == x, "lt" => i < x, "gt" => i > x, _ => return None } }
+                    Err(_) => false,
+                },
+                (["vu64", c, x], Val::UInt(u)) => match u64::try_from(*u) {
+                    Ok(u) => { let x: u64 = x.parse().ok()?; match *c { "eq" => u == x, "lt" => u < x, "gt" => u > x, _ => return None } }
+                    Err(_) => false,
+                },
+                (["vstr", k, a], Val::Str(s)) => str_pred(k, a, s)?,
+                ([ty, ..], _) if ["i64", "i128", "u64", "u128", "bool", "f64", "str", "vi64", "vu64", "vstr"].contains(ty) => false,
+                _ => return None,
+            }
+        }
+        _ => return None,
+    })
+}
+
 fn bit(b: bool) -> char {
     if b { '1' } else { '0' }
 }
@@ -133,6 +272,15 @@ impl Suite for Pred {
                     };
                     match res {
                         Some((e, ct, cf)) => {
+                            let view = if what == "sp" { spans.get(i).map(view_span) } else { events.get(i).map(view_event) };
+                            if let Some(view) = view {
+                                let chain = std::mem::take(&mut { view.ancestors.iter().map(|a| ItemView { level: a.level, target: a.target.clone(), name: a.name.clone(), values: a.values.clone(), message: None, ancestors: vec![] }).collect::<Vec<_>>() });
+                                if let Some(want) = meaning(tok, &view, &chain) {
+                                    if want != e {
+                                        out.fails.push(format!("C18 predicate {tok} on {what} {i} evaluates to {e}, its reference meaning is {want}"));
+                                    }
+                                }
+                            }
                             out.obs.push(format!("e {} t {} f {}", bit(e), bit(ct), bit(cf)));
                             if ct != e || cf == e {
                                 out.fails.push(format!("C18 predicate {tok} on {what} {i}: eval = {e}, case for true exists = {ct}, case for false exists = {cf}"));
